@@ -102,7 +102,7 @@ PROPS = {
     },
     "C08": {
         "level": "proof",
-        "verus": ["c08_push_count", "c08_get_keys"],
+        "verus": ["c08_push_count", "c08_get_keys", "c03_merge"],
         "kani": [],
     },
     "C09": {
@@ -126,7 +126,7 @@ PROPS = {
     },
     "C03": {
         "level": "proof",
-        "verus": ["c03_defaulted", "c11_check_locales"],
+        "verus": ["c03_defaulted", "c11_check_locales", "c03_merge"],
         "kani": [],
         "assumptions": [],
         "trusted_base": [],
